@@ -1,12 +1,14 @@
 SPECIFICATION Spec
 CONSTANTS
-  Formats = {"amf0", "aac", "avc", "ocspreq"}
+  Formats = {"amf0", "aac", "ocspreq"}
   SeedCap = 1
   MaxMut = 2
-  Ops1 = {"trunc", "set", "drop", "dup", "splice", "nest", "tlv", "random"}
+  Ops1 = {"trunc", "set", "drop", "nest", "tlv", "random"}
   Ops2 = {"trunc", "drop"}
   NestDepths = {1, 2}
   SpliceWindow = 2
+  OctetSel = {"empty", "b1", "m1", "p1", "flip0", "x2", "badb64", "null"}
+  JweCbcAlgs = {"dir", "RSA1_5", "ECDH-ES+A128KW", "A128GCMKW"}
   StructAllSeeds = FALSE
   SpliceOther = TRUE
   RandLens = {0, 1, 7}
